@@ -23,7 +23,8 @@ import hashlib
 import functools
 
 from sim import backends as B
-from sim.values import enc, dec, show, Unpicklable, F64, NAN
+from sim.prng import PRNG
+from sim.values import enc, dec, show, Unpicklable, F64, NAN, Plain, PLAIN
 from sim.simfs import SimFS, SimClock
 
 PROPS = ['C01', 'C02', 'C05', 'C06', 'C07', 'C15', 'C16', 'C18', 'C20']
@@ -42,6 +43,21 @@ class SimFault(Exception):
 class SimAbort(BaseException):
     """what a wrapped function raises when it is interrupted: not an Exception subclass
     (KeyboardInterrupt, SystemExit, GeneratorExit, asyncio.CancelledError are of this kind)"""
+
+
+class SimTimeout(TimeoutError):
+    """an OSError subclass raised by the wrapped function (a network or file-system call inside it failed)"""
+
+
+class SimKeyError(KeyError):
+    """the wrapped function's own KeyError (the exception the wrappers use internally for a miss)"""
+
+
+class SimTypeError(TypeError):
+    """the wrapped function's own TypeError (the exception the wrappers use internally for unhashable keys)"""
+
+
+_RAISES = {'os': SimTimeout, 'key': SimKeyError, 'type': SimTypeError}
 
 
 class _Cur(object):
@@ -66,6 +82,8 @@ class _R(object):
         try:
             if isinstance(self.v, memoryview):
                 return 'memoryview(%r)' % (bytes(self.v),)      # the real repr contains an address
+            if isinstance(self.v, Plain):
+                return 'Plain#%d' % self.v.n
             return repr(self.v)
         except Exception:
             return '<no repr>'
@@ -73,6 +91,7 @@ class _R(object):
 
 _BIGRES = [False]
 _UNENC = [False]
+_PKLRES = [False]
 
 
 def _res(text):
@@ -86,6 +105,13 @@ def _res(text):
         return ''
     if h == 2:
         return 0
+    if h == 6 and _PKLRES[0]:
+        import pickle as _pk
+        return _pk.dumps(('record', text), 2)      # the result is itself a complete pickle (a pre-serialised message)
+    if h == 5:
+        # a string that LOOKS like a number (a postal code, a zero-padded id, a version): still a string
+        n = zlib.crc32(text.encode()) // 10 % 100000
+        return ['0%d' % n, '%d.10' % n, '1e%d' % (n % 5), '%05d' % n][n % 4]
     if h == 4 and _UNENC[0]:
         return Unpicklable()       # a result no archive encoding accepts (dill, json and sqlite all refuse it)
     if h == 3:
@@ -177,10 +203,12 @@ def r_p2(x, y=2):
 class _Obj(object):
     """other kinds of callable: a bound method and a callable instance"""
     def m2(self, x, y=2):
+        """a documented method"""
         _enter('m2', show((x, y)))
         return r_m2(x, y)
 
     def __call__(self, x, y=2):
+        """a documented __call__ (what help() shows for a callable object)"""
         _enter('c2', show((x, y)))
         return r_c2(x, y)
 
@@ -283,6 +311,13 @@ def t2(x, t, T):
     return r_t2(x, t, T)
 
 
+def g1(x):
+    # a generator FUNCTION: calling it runs nothing; the harness drains the result right after the call, so a
+    # fresh generator logs one evaluation and a cached (already drained) one logs none
+    _enter('g1', show((x,)))
+    yield x
+
+
 def r_k1(*xs, scale):
     return _res('k1(%r,%r)' % (_R(xs), _R(scale)))
 
@@ -341,9 +376,9 @@ FUNCS = {'f1': (f1, r_f1), 'f2': (f2, r_f2), 'f3': (f3, r_f3),
          'f4': (f4, r_f4), 'f5': (f5, r_f5), 'f6': (f6, r_f6), 'f7': (f7, r_f7), 'f8': (f8, r_f8), 'f9': (f9, r_f9),
          'm2': (_M2, r_m2), 'c2': (_OBJ, r_c2), 'p2': (_P2, r_p2), 'w2': (w2, r_w2),
          'b1': (max, r_b1), 'r1': (r1, r_r1), 'd2': (d2, r_d2), 'k1': (k1, r_k1), 'v1': (None, None),
-         'p4': (_P4, r_p4), 'n9': (n9, r_n9), 'z0': (z0, r_z0), 't2': (t2, r_t2)}          # a builtin without introspectable signature, always called with two Cnt
+         'p4': (_P4, r_p4), 'n9': (n9, r_n9), 'z0': (z0, r_z0), 't2': (t2, r_t2), 'g1': (g1, None)}          # a builtin without introspectable signature, always called with two Cnt
 # signature twins: f7 is spelled like f2, f8 like f4 (they differ in the default value only)
-SHAPE = {'p4': 'f4', 'f7': 'f2', 'f8': 'f4', 'm2': 'f2', 'c2': 'f2', 'p2': 'f2', 'w2': 'f2', 'd2': 'f2', 'v1': 'f2'}
+SHAPE = {'g1': 'f1', 'p4': 'f4', 'f7': 'f2', 'f8': 'f4', 'm2': 'f2', 'c2': 'f2', 'p2': 'f2', 'w2': 'f2', 'd2': 'f2', 'v1': 'f2'}
 DFLT = {'p4': 5, 'f2': 2, 'f6': 2, 'f4': 1, 'f7': 7.26, 'f8': 7.26, 'm2': 2, 'c2': 2, 'p2': 2, 'w2': 2, 'd2': 2, 'v1': 2}
 KWNAME = {'d2': {'y': 'default'}}      # the second parameter of d2 is called `default`
 DEFAULTS = {'f2': ('y', 2), 'f6': ('y', 2), 'f4': ('k', 1), 'f7': ('y', 7.26), 'f8': ('k', 7.26)}
@@ -366,7 +401,7 @@ def sibling_of(fn):
 
 KEYMAPS = [
     ('raw', None), ('string', None), ('pickle', None), ('pickle', 'pickle'),
-    ('pickle', 'dill'), ('pickle', 'json'), ('hash', 'md5'), ('hash', 'sha1'),
+    ('pickle', 'dill'), ('pickle', 'json'), ('hash', 'md5'), ('hash', 'sha1'), ('hash', 'SHA256'),
     ('chain', 'dill+md5'), ('chain', 'string+sha1'), ('chain', 'md5+string'),       # chained keymaps (a + b)
 ]
 
@@ -430,21 +465,27 @@ def gen_config(rng, prop, tier):
         maxsize = rng.choice([30, 40])      # LFU evicts max(2, maxsize//10) entries: >2 only from 30 up
     purge = rng.chance(0.3) and prop != 'C06'
     purge_then_off = prop == 'C06' and rng.chance(0.1)
+    attach_load = prop == 'C06' and algo == 'mru' and not purge_then_off and rng.chance(0.12)
     fn = rng.weighted([(3, 'f1'), (4, 'f2'), (2, 'f3'), (2, 'f4'), (2, 'f5'), (2, 'f6'), (1, 'f7'), (1, 'f8'), (1, 'f9'), (1, 'b1'),
                        (1, 'm2'), (1, 'c2'), (1, 'p2'), (1, 'w2'), (1, 'd2'), (1, 'k1'), (1, 'p4'), (1, 'n9'), (1, 'z0'), (1, 't2')])
     if prop == 'C20' and rng.chance(0.12):
-        fn = 'v1' 
+        fn = 'v1'
+    gen_fn = prop == 'C15' and rng.chance(0.03)
+    if gen_fn:
+        fn = 'g1' 
     dflt100 = prop in ('C05', 'C15') and algo in ('lfu', 'lru', 'mru', 'rr') and not wide and rng.chance(0.02)
     if dflt100:
         # the decorator is built WITHOUT a maxsize argument: the documented bound is 100
         maxsize, maxsize_pos, fn = 'default', False, 'f1'
-    huge = prop == 'C06' and algo in ('lru', 'mru') and rng.chance(0.012)
+    huge = prop == 'C06' and algo in ('lru', 'mru') and not attach_load and rng.chance(0.012)
     if purge_then_off:
         purge = True
+    if attach_load:
+        maxsize, maxsize_pos, fn, purge = rng.choice([3, 4, 5, 6]), False, rng.choice(['f1', 'f2']), rng.chance(0.3)
     if huge:
         # a cache of a thousand entries and more than ten thousand recorded uses between two overflows
         maxsize, maxsize_pos, purge, fn, wide = rng.choice([1000, 1200]), False, False, 'f1', False
-    if prop in ('C01', 'C05', 'C15') and not wide and not dflt100 and rng.chance(0.06):
+    if prop in ('C01', 'C05', 'C15') and not wide and not dflt100 and not gen_fn and rng.chance(0.06):
         fn = 'r1'        # a memoized recursive function (re-entrant calls)
     if wide:
         fn = rng.choice(['f2', 'f6', 'f9', 'f2'])       # enough distinct bound-argument combinations
@@ -458,6 +499,10 @@ def gen_config(rng, prop, tier):
     if prop in ('C07', 'C02'):
         labels = [l for l in labels if l not in (None, 'null')] + ['dict']
     label = rng.choice(labels)
+    if attach_load:
+        label = rng.choice(['dict', 'file-pkl', 'dir-pkl'])
+    if gen_fn:
+        label = None          # generator objects live in memory only
     if purge_then_off and not huge:
         label = rng.choice(['dict', 'dict', 'file-pkl', 'dir-pkl', 'sql-mem'])
     if huge:
@@ -508,7 +553,18 @@ def gen_config(rng, prop, tier):
            'purge': purge, 'keymap': km, 'fn': fn,
            'backend': backend, 'direct': direct,
            'ignore': None, 'tol': None, 'deep': False, 'wide': wide, 'huge': huge,
-           'purge_then_off': bool(purge_then_off and not huge), 'vanish': bool(vanish),
+           'purge_then_off': bool(purge_then_off and not huge), 'vanish': bool(vanish), 'attach_load': bool(attach_load),
+           # the decorator OBJECT travels before it is applied (kept in a configuration that is deep-copied,
+           # pickled to the worker that decorates): the copy must carry every setting
+           # module-level style: small = lru_cache(maxsize=3); large = lru_cache(maxsize=40); ... @small def f
+           'other_deco_first': rng.chance(0.08),
+           # the same decorator object also decorates ANOTHER function (other signature), which is never called
+           'codeco_other': prop in ('C18', 'C01', 'C15') and rng.chance(0.08),
+           # the global random stream is seeded once per run instead of before every step (C16: a raising call
+           # must not consume from it either)
+           'seed_once': prop == 'C16' and algo == 'rr' and rng.chance(0.5),
+           'deco_copy': (rng.choice(['deepcopy', 'dill', 'copy']) if prop in ('C05', 'C06', 'C07', 'C15', 'C20', 'C01')
+                         and (label is None or not label.startswith('sql')) and rng.chance(0.06) else None),
            'bigres': label in ('dir-z', 'dir-fast', 'dir-mmap', 'dir-pkl', 'file-pkl', 'sql-file') and not wide
            and rng.chance(0.12)}
     if prop == 'C16' and module == 'safe' and rng.chance(0.25):
@@ -540,6 +596,10 @@ def gen_config(rng, prop, tier):
             cfg['deep'] = rng.chance(0.5)
     return cfg
 
+
+# directory archives written through klepto's own (joblib-style) pickler: the reader detects the format of each
+# entry from the file, so a directory may be re-opened with any of these option sets
+FAST_FAMILY = ('dir-fast', 'dir-z', 'dir-mmap')
 
 ARG_POOL = [0, 1, 2, 3, 4, 5, 6, 'a', 'b', 1.5, 2.25, None]
 # rarer argument kinds, mixed into some runs: empty and longer strings, a negative and a big int, a tuple, bytes
@@ -726,15 +786,15 @@ BAD_ARGS = [[1, 2], {'$d': [['a', 1]]}, {'$s': [1, 2]}, {'$o': 'badrepr'}, {'$o'
             {'$o': 'keyerr'}, [{'$o': 'keyerr'}], {'$o': 'memview'}, {'$d': [[1, 0.26], [2, 0.5]]}]
 
 OPMIX = {
-    'C01': [(60, 'call'), (5, 'mcall'), (4, 'chdir'), (2, 'sibling_call'), (5, 'peer_call'), (4, 'load'), (3, 'load_k'), (4, 'dump'), (2, 'dump_k'), (3, 'clear'),
+    'C01': [(60, 'call'), (2, 'restart_opts'), (5, 'mcall'), (4, 'chdir'), (2, 'sibling_call'), (5, 'peer_call'), (4, 'load'), (3, 'load_k'), (4, 'dump'), (2, 'dump_k'), (3, 'clear'),
             (1, 'clear_keep'), (3, 'off'), (3, 'on'), (2, 'swap'), (4, 'restart'), (3, 'restart_dump'),
             (3, 'advance')],
-    'C02': [(60, 'call'), (2, 'sync_clear'), (2, 'ext_clear'), (4, 'chdir'), (2, 'sibling_call'), (6, 'peer_call'), (3, 'load'), (2, 'load_k'), (5, 'dump'), (2, 'dump_k'), (2, 'clear'),
+    'C02': [(60, 'call'), (2, 'invalidate'), (1, 'checkpoint'), (3, 'restart_opts'), (2, 'sync_clear'), (2, 'ext_clear'), (4, 'chdir'), (2, 'sibling_call'), (6, 'peer_call'), (3, 'load'), (2, 'load_k'), (5, 'dump'), (2, 'dump_k'), (2, 'clear'),
             (2, 'off'), (2, 'on'), (3, 'restart'), (6, 'restart_dump'), (2, 'advance')],
     'C05': [(55, 'call'), (10, 'load'), (3, 'load_k'), (4, 'dump'), (3, 'clear'), (3, 'off'), (3, 'on'),
             (2, 'swap'), (3, 'restart'), (3, 'restart_dump'), (2, 'clone'), (3, 'bad')],
     'C06': [(100, 'call'), (6, 'rcall'), (4, 'bad')],
-    'C07': [(70, 'call'), (2, 'sync_clear'), (2, 'ext_clear'), (4, 'chdir'), (4, 'peer_call'), (3, 'load'), (3, 'load_k'), (4, 'dump'), (2, 'dump_k'), (2, 'clear'),
+    'C07': [(70, 'call'), (2, 'invalidate'), (2, 'checkpoint'), (2, 'sync_clear'), (2, 'ext_clear'), (4, 'chdir'), (4, 'peer_call'), (3, 'load'), (3, 'load_k'), (4, 'dump'), (2, 'dump_k'), (2, 'clear'),
             (2, 'off'), (3, 'on'), (2, 'restart_dump'), (1, 'swap')],
     'C15': [(60, 'call'), (3, 'codeco_call'), (3, 'peer_call'), (4, 'load'), (2, 'load_k'), (4, 'dump'), (2, 'dump_k'), (4, 'clear'),
             (3, 'clear_keep'), (3, 'off'), (3, 'on'), (2, 'swap'), (3, 'restart'), (3, 'restart_dump'),
@@ -743,7 +803,7 @@ OPMIX = {
             (2, 'on'), (2, 'restart_dump')],
     'C18': [(50, 'call'), (4, 'bad'), (5, 'mcall'), (2, 'sibling_call'), (14, 'key'), (14, 'lookup'), (3, 'rcall'), (3, 'load'), (3, 'dump'),
             (2, 'clear'), (2, 'off'), (2, 'on'), (2, 'restart_dump')],
-    'C20': [(60, 'call'), (5, 'gset'), (3, 'load'), (3, 'dump'), (2, 'clear'), (1, 'clear_keep'), (2, 'off'), (2, 'on'),
+    'C20': [(60, 'call'), (3, 'csync'), (5, 'gset'), (3, 'load'), (3, 'dump'), (2, 'clear'), (1, 'clear_keep'), (2, 'off'), (2, 'on'),
             (3, 'rcall')],
 }
 
@@ -760,6 +820,12 @@ def generate(rng, prop, tier):
         if km['kind'] == 'pickle' and km['arg'] == 'json':
             extra = [e for e in extra if not isinstance(e, (bytes, tuple))]
         pool = pool + extra
+    if prop == 'C01' and rng.chance(0.12) and not (km['kind'] == 'pickle' and km['arg'] == 'json') and \
+       not (cfg['backend'] and cfg['backend']['label'] in ('file-src', 'dir-src', 'file-json', 'dir-json')) and \
+       fn not in ('b1', 'r1', 'n9') and not (km['kind'] == 'raw' and cfg['backend'] and B.is_persistent(cfg['backend'])):
+        # (a raw key holding such an object has no meaning in a persistent store: its unpickled copy is another object)
+        # two live objects of one class with the default repr: different arguments, whatever the keymap prints
+        pool = [PLAIN[1], PLAIN[2]] + pool
     if prop == 'C02' and km['kind'] == 'raw' and cfg['backend'] is not None and rng.chance(0.5) and \
        cfg['backend']['label'] in ('dir-pkl', 'dir-fast', 'dir-z', 'dir-mmap'):
         # a key that is not equal to its own unpickled copy: float nan, the usual missing-value marker (the same
@@ -784,7 +850,7 @@ def generate(rng, prop, tier):
     mix = list(OPMIX[prop])
     if strict:
         mix = [(w, k) for (w, k) in mix if k in ('call', 'dump', 'dump_k', 'load', 'load_k',
-                                                   'restart_dump', 'advance')]
+                                                   'restart_dump', 'restart_opts', 'advance')]
     if cfg['backend'] is None:
         mix = [(w, k) for (w, k) in mix if k not in ('off', 'on', 'swap', 'load', 'load_k',
                                                       'dump', 'dump_k')] + [(2, 'load'), (2, 'dump')]
@@ -798,13 +864,23 @@ def generate(rng, prop, tier):
         mix = [(w, k) for (w, k) in mix if k != 'chdir']
     if fn != 'v1':
         mix = [(w, k) for (w, k) in mix if k != 'gset']
+    if fn == 'g1':
+        mix = [(w, k) for (w, k) in mix if k in ('call', 'clear', 'clear_keep')]     # (its body cannot raise AT the call)
     if fn in ('k1', 'v1', 'd2', 'z0', 't2'):
         mix = [(w, k) for (w, k) in mix if k not in ('bad', 'mcall', 'sibling_call')]
     if cfg.get('unenc'):
         mix = [(w, k) for (w, k) in mix if k not in ('restart', 'restart_dump', 'swap', 'peer_call', 'clear',
                                                       'sync_clear', 'ext_clear')]
     if cfg['backend'] is None or cfg['direct']:
-        mix = [(w, k) for (w, k) in mix if k not in ('sync_clear', 'ext_clear')]
+        mix = [(w, k) for (w, k) in mix if k not in ('sync_clear', 'ext_clear', 'csync')]
+    if cfg['direct'] or cfg.get('unenc') or cfg.get('huge') or fn in ('r1',):
+        mix = [(w, k) for (w, k) in mix if k not in ('invalidate', 'checkpoint')]
+    if cfg['backend'] is None or strict:
+        mix = [(w, k) for (w, k) in mix if k != 'checkpoint']
+    if strict:
+        mix = [(w, k) for (w, k) in mix if k != 'invalidate']
+    if cfg['backend'] is None or cfg['backend']['label'] not in FAST_FAMILY:
+        mix = [(w, k) for (w, k) in mix if k != 'restart_opts']
     if fn in ('r1', 'b1') or cfg['keymap']['kind'] == 'raw' or cfg.get('ignore') is not None or \
        (cfg['keymap']['kind'] == 'pickle' and cfg['keymap']['arg'] == 'json' and False):
         mix = [(w, k) for (w, k) in mix if k != 'mcall']
@@ -836,6 +912,8 @@ def generate(rng, prop, tier):
                 op['raises'] = True
                 if rng.chance(0.2):
                     op['base'] = True        # an interrupt-like BaseException
+                elif rng.chance(0.3):
+                    op['exc'] = rng.choice(['os', 'key', 'type'])      # exception classes the wrappers handle themselves
                 if rng.chance(0.2):
                     op['cause'] = True       # raised `from` another exception
             elif kind in ('key', 'lookup', 'peer_call', 'sibling_call', 'codeco_call'):
@@ -858,7 +936,10 @@ def generate(rng, prop, tier):
             badarg = rng.choice(BAD_ARGS)
             if cfg.get('tol') is not None and cfg.get('deep') and rng.chance(0.5):
                 badarg = {'$d': [[1, 0.26], [2, 0.5]]}      # deep rounding iterates it but cannot rebuild it
-            ops.append({'op': 'call', 'a': [badarg] + extra, 'kw': [], 'bad': True})
+            bop = {'op': 'call', 'a': [badarg] + extra, 'kw': [], 'bad': True}
+            if prop in ('C15', 'C16') and rng.chance(0.25):
+                bop['raises'] = True          # the fallback evaluation itself fails
+            ops.append(bop)
         elif kind in ('load_k', 'dump_k'):
             cs = [rng.choice(hot) for _ in range(rng.randint(1, 2))]
             ops.append({'op': kind, 'calls': [spell(rng, fn, c) for c in cs]})
@@ -933,6 +1014,27 @@ def generate(rng, prop, tier):
         n_d = 100 + rng.randint(3, 25)
         ops = ops[:rng.randint(0, 8)] + [{'op': 'call', 'a': [1000 + i], 'kw': []} for i in range(n_d)] + \
             [{'op': 'call', 'a': [1000 + rng.below(n_d)], 'kw': []} for _ in range(rng.randint(2, 8))]
+    if cfg.get('attach_load'):
+        # a store of precomputed results is attached to a running, partly filled cache, which is then warmed with
+        # load(): the cache is full of entries the usage bookkeeping has partly never seen when the next miss overflows
+        ms = cfg['maxsize']
+        seen, base = set(), []
+        for _ in range(400):
+            c = logical_call(rng, fn, pool, True)
+            cj = json.dumps(spell(PRNG(1), fn, c), sort_keys=True)
+            if cj not in seen:
+                seen.add(cj)
+                base.append(c)
+            if len(base) >= ms + 3:
+                break
+        if len(base) >= ms + 1:
+            full, fresh = base[:ms], base[ms:]
+            ops = [spell(rng, fn, c) for c in full[:ms - (1 if cfg['purge'] else 0)]] + [{'op': 'dump'}, {'op': 'clear'}, {'op': 'off'}]
+            some = rng.sample(full, rng.randint(2, ms - 1))
+            ops += [spell(rng, fn, c) for c in some]
+            ops += [spell(rng, fn, c) for c in rng.sample(some, rng.randint(1, len(some) - 1))]      # hits, not on the last one
+            ops += [{'op': 'on'}, {'op': 'load'}]
+            ops += [spell(rng, fn, c) for c in fresh]
     if cfg.get('vanish'):
         ops.insert(rng.randint(min(3, len(ops)), len(ops)), {'op': 'vanish'})
         ops.extend(spell(rng, fn, logical_call(rng, fn, pool, True))
@@ -991,6 +1093,9 @@ class World(object):
             _GS['n'] = 0
         _BIGRES[0] = bool(self.cfg.get('bigres'))
         _UNENC[0] = bool(self.cfg.get('unenc'))
+        _lab = self.cfg['backend']['label'] if self.cfg['backend'] else None
+        _PKLRES[0] = _lab in (None, 'dict', 'null', 'file-pkl', 'dir-pkl', 'dir-fast', 'dir-z', 'dir-mmap', 'sql-file', 'sql-mem') \
+            and self.cfg['fn'] not in ('b1', 'r1', 'v1', 'g1')
         _WRAP_CNT[0] = self.cfg['fn'] == 'b1' 
         self.generation = 0
         self.swapped = 0
@@ -999,6 +1104,7 @@ class World(object):
         self.sib = None
         self.mut = [1, 2]        # ONE list object, passed again and again and mutated in place in between
         self.raised_steps = set()
+        self.opts_label = None
         self.vanished = False  # C05: the archive's storage was removed by a fault
         self.orig = None       # C20: the function that was pickled
         self.orig_snap = None
@@ -1021,6 +1127,9 @@ class World(object):
         b = self.cfg['backend']
         if b is None:
             return None
+        if self.opts_label:
+            # the same directory, re-opened in a later "session" with other (compatible) storage options
+            b = dict(b, opts=dict(B.CATALOG[self.opts_label]['opts']))
         return self.at_home(lambda: B.make(b, self.root, cached=not self.cfg['direct']))
 
     def build(self, first=False):
@@ -1047,6 +1156,19 @@ class World(object):
             dec_ = cls(cfg['maxsize'], **kw)
         else:
             dec_ = cls(maxsize=cfg['maxsize'], **kw)
+        if cfg.get('other_deco_first') and cfg['algo'] not in ('no', 'inf'):
+            other_kw = dict(kw, purge=not cfg['purge'])
+            other_kw.pop('cache', None)
+            cls(maxsize=(self.eff_maxsize or 1) + 37, **other_kw)       # built, never applied
+        if cfg.get('deco_copy'):
+            import copy as _cp
+            import dill as _dill
+            try:
+                dec_ = {'deepcopy': _cp.deepcopy, 'copy': _cp.copy,
+                        'dill': lambda d: _dill.loads(_dill.dumps(d))}[cfg['deco_copy']](dec_)
+            except Exception as e:
+                raise Mismatch('decoration-raises', 'copying the decorator object (%s) raised %s: %s'
+                               % (cfg['deco_copy'], type(e).__name__, str(e)[:200]))
         self.dec_ = dec_
         self.h = None
         try:
@@ -1055,6 +1177,11 @@ class World(object):
             raise Mismatch('decoration-raises', 'decorating with %s_cache(%s%r, ...) raised %s: %s'
                            % (cfg['algo'], '' if cfg['maxsize_pos'] else 'maxsize=', cfg['maxsize'],
                               type(e).__name__, str(e)[:200]))
+        if cfg.get('codeco_other'):
+            try:
+                self.other = dec_(k1)
+            except Exception:
+                self.other = None
         self.generation += 1
 
     def peer(self):
@@ -1175,7 +1302,7 @@ class Oracle(object):
                                    % (show_op(op), type(val).__name__, show(k)))
             return
         if tag == 'exc':
-            if raised_req and isinstance(val, (SimFault, SimAbort)):
+            if raised_req and isinstance(val, (SimFault, SimAbort) + tuple(_RAISES.values())):
                 pass
             else:
                 if not (bad and prop != 'C16'):
@@ -1408,7 +1535,8 @@ def run_world(case, prop, root, name, skip, fs, clock, probes, faults, log):
     for step, op in enumerate(case['ops']):
         w.step = step
         _Cur.world = w
-        _random.seed(seeds[step])
+        if not cfg.get('seed_once'):
+            _random.seed(seeds[step])
         kind = op['op']
         if skip(step, op):
             continue
@@ -1439,6 +1567,9 @@ def run_world(case, prop, root, name, skip, fs, clock, probes, faults, log):
                 if op.get('base'):
                     w.raise_next = SimAbort('interrupted at step %d' % step)
                     bump(faults, 'function-raises-BaseException')
+                elif op.get('exc'):
+                    w.raise_next = _RAISES[op['exc']]('injected at step %d' % step)
+                    bump(faults, 'function-raises-%s' % _RAISES[op['exc']].__bases__[0].__name__)
                 else:
                     w.raise_next = SimFault('injected at step %d' % step)
                 fault = w.raise_next
@@ -1453,14 +1584,17 @@ def run_world(case, prop, root, name, skip, fs, clock, probes, faults, log):
                 if keyerr is None or cfg['direct']:
                     # hashable and encodable under this keymap: not a "bad" argument here;
                     # an archive used directly as the cache is outside C16's "archive attached"
+                    w.raise_next = None
                     continue
                 bump(faults, 'unhashable-or-unencodable-argument')
             n0 = len(w.evals)
             try:
                 outcome = ('ok', f(*args, **kw))
+                if cfg['fn'] == 'g1':
+                    outcome = ('ok', list(outcome[1]))       # drain: runs the body of a fresh generator
             except BaseException as e:
                 outcome = ('exc', e)
-                if op.get('raises') and e is not fault and isinstance(e, (SimFault, SimAbort)):
+                if op.get('raises') and e is not fault and isinstance(e, (SimFault, SimAbort) + tuple(_RAISES.values())):
                     raise Mismatch('exception-identity', 'a different exception object reached the caller')
                 if op.get('raises') and e is fault and (e.__cause__ is not cause0 or
                                                         e.__suppress_context__ != (cause0 is not None)):
@@ -1699,6 +1833,28 @@ def run_world(case, prop, root, name, skip, fs, clock, probes, faults, log):
             after = w.observe()
             if prop in ('C15', 'C05') and w.eff_algo != 'no' and len(after['mem']) != 0 and not after['direct']:
                 raise Mismatch('clear', 'clear() left %d entries resident' % len(after['mem']))
+        elif kind == 'invalidate':
+            # hand invalidation through the documented accessor: del f.__cache__()[key] for one resident entry
+            ks = sorted(before['mem'], key=show)
+            if ks and not before['direct']:
+                victim = ks[seeds[step] % len(ks)]
+                del c[victim]
+                bump(faults, 'entry-invalidated-by-hand')
+                orc.last_use.pop(victim, None)
+                orc.count.pop(victim, None)
+                orc.computed.pop(_hk(victim), None)
+                orc.evalcount.pop(_hk(victim), None)
+        elif kind == 'checkpoint':
+            # the checkpoint idiom on the cache object itself: c = f.__cache__(); c.dump(); c.clear()
+            if not before['direct'] and before['on']:
+                c.dump()
+                c.clear()
+                bump(faults, 'checkpoint-through-cache-object')
+                orc.reset_usage()
+        elif kind == 'csync':
+            if not before['direct'] and cfg['backend'] is not None:
+                c.sync()                 # f.__cache__().sync(): dump, then load
+                bump(faults, 'cache-sync')
         elif kind == 'sync_clear':
             if not before['direct'] and cfg['backend'] is not None:
                 c.sync(clear=True)       # archive emptied, then everything resident dumped
@@ -1737,9 +1893,14 @@ def run_world(case, prop, root, name, skip, fs, clock, probes, faults, log):
                 b2 = dict(cfg['backend'], name='m%d' % w.swapped)
                 f.archive(w.at_home(lambda: B.make(b2, w.root, cached=False)))
                 bump(faults, 'archive-swapped')
-        elif kind in ('restart', 'restart_dump'):
-            if kind == 'restart_dump':
+        elif kind in ('restart', 'restart_dump', 'restart_opts'):
+            if kind in ('restart_dump', 'restart_opts'):
                 f.dump()
+            if kind == 'restart_opts':
+                cur = w.opts_label or cfg['backend']['label']
+                w.opts_label = FAST_FAMILY[(FAST_FAMILY.index(cur) + 1 + seeds[step] % 2) % 3]
+                bump(faults, 'reopened-with-other-storage-options')
+                kind = 'restart_dump'
             del f, c
             w.f = None
             w.g = None
@@ -2019,10 +2180,14 @@ def evidence_info(prop):
                 'callables: plain functions of every signature shape, bound method, callable instance, partials (one '
                 'overriding a keyword-only default), functools.wraps decorator, a builtin, a recursive function, a '
                 'nine-parameter function (flat keys of more than 16 items), a function without named parameters, one whose '
-                'parameter names differ by case only, a by-value nested function. Un-keyable arguments (safe caches): '
+                'parameter names differ by case only, a generator function (C15), a by-value nested function. In 6% of the runs '
+                'of C01 C05 C06 C07 C15 C20 the decorator OBJECT is copied / deep-copied / dill-pickled before it decorates. '
+                'Results include strings that look like numbers. Un-keyable arguments (safe caches): '
                 'lists, dicts, sets, objects whose repr/pickling/hash raise, a writable memoryview. Raising calls '
-                'raise an Exception or a BaseException (interrupt-like), a fifth of them `from` an explicit cause. Per '
-                'property: C02 adds float nan arguments (raw keymap, pickled directory archives); C05 adds the storage '
+                'raise an Exception, a BaseException (interrupt-like) or a TimeoutError / KeyError / TypeError subclass, a fifth '
+                'of them `from` an explicit cause. Per '
+                'property: C01 adds two live default-repr objects as arguments; C01/C02 re-open klepto-pickler directory '
+                'archives with another compatible option set at a restart; C06 adds MRU attach-and-load histories; C02 adds float nan arguments (raw keymap, pickled directory archives); C05 adds the storage '
                 'fault "vanish" (the archive\'s directory is removed mid-run, later operations may fail, the bound must '
                 'hold) and decorators built without maxsize (bound 100, 103-125 distinct calls); C02/C07 add steps where the '
                 'shared store is emptied through another handle or by cache.sync(clear=True); C20 round trips may have '
